@@ -204,31 +204,27 @@ pub struct GoldenCase {
     pub idx: usize,
 }
 
+const GOLDEN_NETWORKS: [&str; 3] = ["regtest", "signet", "mainnet"];
+
 fn golden_part(ctx: &Ctx, ev: &mut Evidence) -> Vec<Found> {
-    let network = crate::driver::network();
     let mut found = vec![];
-    let _ = ctx;
-    // spread over worker threads of this process is not worth it: 48 short histories
-    let results: Vec<(usize, CheckResult)> = crate::par::par_map((0..GOLDEN_N).collect(), move |i| (i, golden_check_one(&crate::driver::network(), i)));
-    for (i, r) in results {
-        match r {
-            Ok(info) => {
-                ev.evaluations += 1;
-                for c in &info.classes {
-                    ev.count_class(&format!("golden/{}", c), 1);
-                }
-                if info.nontrivial {
-                    ev.nontrivial.insert(0xC02_0000 + i as u64);
-                }
-            }
-            Err(f) => {
-                if !found.iter().any(|x: &Found| x.sig == f.sig) {
-                    found.push(Found { part: "golden".into(), sig: f.sig, detail: f.detail, case: json!(GoldenCase { network: network.clone(), idx: i }) });
-                }
-            }
-        }
+    for net in GOLDEN_NETWORKS {
+        let name: &'static str = match net {
+            "regtest" => "golden-regtest",
+            "signet" => "golden-signet",
+            _ => "golden-mainnet",
+        };
+        let f = explore_indexed_net(
+            ctx,
+            ev,
+            name,
+            "fixed corpus of 48 generated histories (frozen generator seed, independent of VERIF_SEED) run in worker processes configured for this network (regtest: Prague + RLP transaction hashes everywhere; signet: Cancun at low heights; mainnet: Cancun, pre-RLP transaction hashes, mainnet chain id): per-call response digests and the digest of the final observation must equal /verif/golden/C02-<network>.json recorded for the same PROTOCOL_VERSION/DB_VERSION (skipped, and counted as such, if the tree reports other versions)",
+            GOLDEN_N as u64,
+            Some(net),
+            move |i| (golden_check_one(net, i as usize), json!(GoldenCase { network: net.to_string(), idx: i as usize })),
+        );
+        found.extend(f);
     }
-    ev.rules.push("[golden] fixed corpus of 48 generated histories (frozen generator seed, independent of VERIF_SEED): per-call response digests and the digest of the final observation must equal /verif/golden/C02-<network>.json recorded for the same PROTOCOL_VERSION/DB_VERSION (skipped, and counted as such, if the tree reports other versions)".into());
     found
 }
 
@@ -245,13 +241,19 @@ impl Property for C02 {
             max_shrink_iters: ctx.tier.pick(250, 1000),
         };
         let mut found = explore(ctx, ev, &cfg, strategy, check);
-        if !is_worker() {
-            found.extend(golden_part(ctx, ev));
-        }
+        found.extend(golden_part(ctx, ev));
         found
     }
+    fn part_network(&self, part: &str) -> Option<&'static str> {
+        match part {
+            "golden-signet" => Some("signet"),
+            "golden-mainnet" => Some("mainnet"),
+            _ => None,
+        }
+    }
     fn replay(&self, part: &str, case: &Value) -> CheckResult {
-        if part == "golden" {
+        if part.starts_with("golden") {
+            let case = if case.get("desc").is_some() { &case["desc"] } else { case };
             let g: GoldenCase = decode_case(case)?;
             if g.network != crate::driver::network() {
                 fail!("harness/replay-network", "replay needs VERIF_NETWORK={}", g.network);
